@@ -28,8 +28,10 @@ META = {
             "that prints Gen/C02.lean; the harness; the C compiler. The LZMA payload itself is decoded by the C decoder (and Python's "
             "liblzma), not yet by a Lean LZMA decoder; 'no match reaches farther back than the declared dictionary' is therefore only "
             "observed through those decoders. SHA-256 Check values are verified by Python hashlib, not by the Lean validator. "
-            "The container-encoder theorems take the payload contract as a hypothesis (Props/C01 proves it for the LZMA1 models and per "
-            "chunk for LZMA2); the model decides the single-call fall-back by 'complete payload longer than the limit', which equals the C "
+            "The container-encoder theorems take the payload contract as a hypothesis; it is discharged for the concrete LZMA2/LZMA1 + "
+            "delta/BCJ models in Props/C01EndToEnd.lean (payload_contract_std_on, uncomp_contract_std, xz_roundtrip_std*, checked by "
+            "./check C01), where only the parser remains abstract under its Describes contract (the chunker accepts its trace), which "
+            "the H2 hook checks per run; the model decides the single-call fall-back by 'complete payload longer than the limit', which equals the C "
             "behaviour if the raw encoder's output does not depend on the output space offered (C06); output slicing is not modelled here.",
     "technique": "Lean 4 proof over an executable model + regenerated tables/kernels + differential correspondence + structural validation of real encoder output",
 }
